@@ -131,9 +131,11 @@ func (s *Sink) Add(stream, line, impl string, nontrivial bool) {
 }
 func (s *Sink) Count(key string) { s.Hist[key]++ }
 func (s *Sink) Fail(f Failure) {
-	if len(s.Failures) < 200 {
+	// keep at most 15 examples per failure class
+	if s.Hist["failclass:"+f.Class] < 15 && len(s.Failures) < 600 {
 		s.Failures = append(s.Failures, f)
 	}
+	s.Hist["failclass:"+f.Class]++
 	s.Hist["failures"]++
 }
 
